@@ -8,7 +8,8 @@ class SpecC12(e1_driver.Spec):
     prop = 'C12'
     monitor = mon.MonC12
     profile = dict(p_pool_l=0.15, p_pool_s=0.15, p_frequent_bounds=0.2,
-                   fault_kinds=['stop_resume', 'stop_resume', 'kill', 'slice',
+                   fault_kinds=['stop_resume', 'stop_resume', 'kill',
+                                'kill_in_write', 'slice',
                                 'toggle', 'toggle', 'toggle', 'toggle'])
     runs = dict(quick=80, thorough=1500)
     budget = dict(quick=120, thorough=1500)
@@ -33,7 +34,8 @@ class SpecC12(e1_driver.Spec):
         f = r.get('faults') or {}
         m = r.get('monitor') or {}
         return (f.get('toggle', 0) + f.get('stop_resume', 0) +
-                f.get('kill', 0)) > 0 and m.get('toggle_checks', 0) > 0
+                f.get('kill', 0) + f.get('kill_in_write', 0)) > 0 and m.get(
+                    'toggle_checks', 0) > 0
 
     def monitor_stats(self, m):
         return dict(snapshots=m.n_checks, toggle_checks=m.toggle_checks,
